@@ -81,6 +81,14 @@ def make_jobs(ctx):
         jobs += js
     jobs += c06.variant_jobs(ctx, "defmem", False, True, False, opts=["-d", "gnu-ld"], prefix="G.gnuld", only=["h_memory", "h_start"])
     jobs += c06.variant_jobs(ctx, "impmem", True, True, False, opts=["-d", "gnu-ld", "-p"], prefix="G.gnuldp", only=["h_memory"])
+    jobs.append(ejob(ctx, "RD.code_hash", "c09_hash.c", "h_code_hash", ["reader.c:wasmReadCodeSection", "reader.c:wasmReadCodeLocalsDeclarations"], defines=["H_HASH"],
+                     flags=["--unwind", "8", "--unwinding-assertions", "--no-signed-overflow-check", "--no-undefined-shift-check"], native_src=[],
+                     bounded="2 functions, <= 2 locals groups, <= 3 code bytes each, size fields padded to <= 3 bytes; all bytes symbolic (the reader is uniform in the body length)",
+                     info=dict(layer="RD", note="SHA1 replaced by a recorder of (pointer, length, destination): call-site contract; SHA-1 itself is trusted (two RFC vectors in the pinned tests)")))
+    jobs.append(ejob(ctx, "M.split", "c09_hash.c", "h_split", ["main.c:wasmSplitStaticAndDynamicFunctions", "main.c:wasmFunctionIDsCompareHashes"], defines=["H_SPLIT"],
+                     flags=["--unwind", "24", "--unwinding-assertions"], native_src=["stringbuilder.c", "opcode.c", "instruction.c", "valuetype.c", "sha1.c", "export.c", "debug.c", "section.c", "c.c", "reader.c", "compat.c"],
+                     bounded="<= 3 functions in the module and <= 3 in the reference module, digests symbolic",
+                     info=dict(layer="M")))
     j = Job("B.files_and_threads", src=None, solver="static", funcs=["w2c2 binary: -f / -t"], bounded="one module of 28 functions, -f in {1,2,3,n+1} x -t in {1,2,4,8} x 2 runs (quick: subset)",
             info=dict(layer="bounded corroboration on the real binary"))
     j.static_fn = files_fact
